@@ -44,6 +44,8 @@ type Config struct {
 	StateDepth int                           // pass (b): BFS depth cap (0 = skip pass b)
 	MaxStates  int                           // pass (b) cap on distinct states (0 = none)
 	Workers    int
+	Shard      int // process-level sharding of pass (a): this process runs histories with index % NShards == Shard
+	NShards    int // 0/1 = no sharding; pass (b) runs in shard 0 only
 	Deadline   time.Time // zero = none
 	// Known reports whether a violation is a listed known finding (then it is not a failure and the
 	// history is not extended).
@@ -141,91 +143,111 @@ func Run(c *Config) *Result {
 		}
 	}
 
-	// ---- pass (a): level by level, every history of length L (prefixes known good) ----
-	level := [][]int{{}}
+	// ---- pass (a): level by level, every history of length L, enumerated by index (no
+	// materialisation); with NShards > 1 this process executes the histories whose index is
+	// congruent to Shard ----
+	nsh, sh := c.NShards, c.Shard
+	if nsh <= 0 {
+		nsh, sh = 1, 0
+	}
 	r.HistExhaustive = true
-	for L := 1; L <= c.HistDepth; L++ {
-		// build candidates
-		var cands [][]int
-		for _, p := range level {
-			for op := 0; op < c.NumOps; op++ {
-				if c.enabled(p, op) {
-					h := make([]int, len(p)+1)
-					copy(h, p)
-					h[len(p)] = op
-					cands = append(cands, h)
-				}
+	isBadPrefix := func(h []int) bool {
+		mu.Lock()
+		defer mu.Unlock()
+		if len(bad) == 0 {
+			return false
+		}
+		for j := 1; j <= len(h); j++ {
+			if bad[key(h[:j])] {
+				return true
 			}
 		}
-		if len(cands) == 0 {
-			break
+		return false
+	}
+	for L := 1; L <= c.HistDepth; L++ {
+		total := uint64(1)
+		for i := 0; i < L; i++ {
+			total *= uint64(c.NumOps)
 		}
-		var next [][]int
-		var nmu sync.Mutex
-		var idx int64 = -1
+		var next uint64 // next index offset (in units of nsh) handed to a worker
 		var wg sync.WaitGroup
 		var aborted int32
+		var executed int64
+		var smu sync.Mutex
 		for w := 0; w < c.Workers; w++ {
 			wg.Add(1)
 			go func() {
 				defer wg.Done()
-				var local [][]int
+				h := make([]int, L)
 				for {
-					i := atomic.AddInt64(&idx, 1)
-					if int(i) >= len(cands) {
+					k := atomic.AddUint64(&next, 1) - 1
+					n := k*uint64(nsh) + uint64(sh)
+					if n >= total {
 						break
 					}
-					if i%256 == 0 && c.expired() {
+					if k%512 == 0 && c.expired() {
 						atomic.StoreInt32(&aborted, 1)
 						break
 					}
-					h := cands[i]
+					x := n
+					for i := L - 1; i >= 0; i-- {
+						h[i] = int(x % uint64(c.NumOps))
+						x /= uint64(c.NumOps)
+					}
+					ok := true
+					if c.Enabled != nil {
+						for i := 0; i < L && ok; i++ {
+							ok = c.Enabled(h[:i], h[i])
+						}
+					}
+					if !ok || isBadPrefix(h[:L-1]) {
+						continue
+					}
 					s := c.New()
 					var viol *Violation
+					at := -1
 					for j, op := range h {
 						viol = s.Apply(op)
 						if viol != nil {
-							if j != len(h)-1 {
-								// a prefix that was good before fails now: nondeterminism
-								viol = V("NONDETERMINISM", "prefix step %d failed on replay: %s", j, viol.Error())
-							}
+							at = j
 							break
 						}
 					}
 					s.Close()
-					atomic.AddInt64(&r.Histories, 1)
-					atomic.AddInt64(&r.HistTransitions, int64(len(h)))
+					atomic.AddInt64(&executed, 1)
+					atomic.AddInt64(&r.HistTransitions, int64(L))
 					if viol != nil {
-						record(h, viol)
+						if at != L-1 && nsh == 1 && len(r.CapsHit) == 0 {
+							viol = V("NONDETERMINISM", "prefix step %d failed on replay although the prefix passed at the previous level: %s", at, viol.Error())
+						}
+						record(h[:at+1], viol)
 						continue
 					}
-					local = append(local, h)
+					if k%4099 == 0 {
+						smu.Lock()
+						if len(r.Samples) < 8 {
+							r.Samples = append(r.Samples, c.names(h))
+						}
+						smu.Unlock()
+					}
 				}
-				nmu.Lock()
-				next = append(next, local...)
-				nmu.Unlock()
 			}()
 		}
 		wg.Wait()
+		r.Histories += executed
 		if aborted != 0 {
 			r.HistExhaustive = false
 			r.CapsHit = append(r.CapsHit, fmt.Sprintf("pass(a) deadline hit at depth %d", L))
 			break
 		}
 		r.HistDepthDone = L
-		sort.Slice(next, func(i, j int) bool { return key(next[i]) < key(next[j]) })
-		if L <= 3 || len(r.Samples) < 6 {
-			if len(next) > 0 {
-				r.Samples = append(r.Samples, c.names(next[len(next)/2]))
-				r.Samples = append(r.Samples, c.names(next[len(next)-1]))
-			}
-		}
-		level = next
 		if len(r.Violations) > 0 {
 			break // shortest counterexamples found; stop
 		}
 	}
-	level = nil
+	if nsh > 1 && sh != 0 {
+		return r
+	}
 	if len(r.Violations) > 0 || c.StateDepth == 0 {
 		return r
 	}
